@@ -123,6 +123,32 @@ theorem C04_rekey_tamper (A2 : Aead) (ps2 : List Bytes) (hI : Ideal A2 ps2) (r :
     (Rx.run A2 r.rekey cs).1.cnt ≤ ps2.length := by
   rw [(C04_rekey A2 r cs).1 hopen]; exact C04_tamper A2 ps2 hI cs
 
+/-- Connections do not interfere. For every pool of connections, every assignment of ciphers and EVERY
+    interleaving of reads across connections (a schedule), what connection `i` ends up with and what is
+    handed to ITS HTTP layer is exactly what it would get from its own reads alone — so all theorems
+    above hold per connection whatever the other connections receive, tampered streams included. (True
+    by construction of the model's pool; that the code keeps buffer, counter and ciphers per instance
+    is tied by the interleaved differential stream, incl. instances created while another is mid-frame.) -/
+theorem C04_pool_independent (A : Nat → Aead) (p : Pool) (s : List (Nat × Bytes)) (i : Nat) :
+    (Pool.run A p s).1 i = (Rx.run (A i) (p i) (proj i s)).1 ∧
+    (proj i (Pool.run A p s).2).flatten = (Rx.run (A i) (p i) (proj i s)).2 := by
+  induction s generalizing p with
+  | nil => simp [Pool.run, proj, Rx.run]
+  | cons x s ih =>
+    obtain ⟨j, c⟩ := x
+    have h := ih (p.set j ((p j).recv (A j) c).1)
+    by_cases hj : j = i
+    · subst hj
+      simp only [Pool.run, proj, List.filter_cons, beq_self_eq_true, if_true, List.map_cons, Rx.run,
+        List.flatten_cons] at h ⊢
+      simp only [Pool.set, if_true] at h
+      exact ⟨h.1, by rw [h.2]⟩
+    · have hne : (j == i) = false := by simpa using hj
+      simp only [Pool.run, proj, List.filter_cons, hne, Bool.false_eq_true, if_false] at h ⊢
+      have hp : (p.set j ((p j).recv (A j) c).1) i = p i := by simp [Pool.set, Ne.symm hj]
+      rw [hp] at h
+      exact h
+
 /-- The loop as it was before the repair (`>` instead of `>=`) does not deliver a complete
     19-byte frame (1-byte payload) that sits at the end of the buffer; the repaired loop does. -/
 theorem C04_legacy_counterexample :
@@ -146,6 +172,15 @@ example :
     let stale := Rx.run2 (mockAead 3) (mockAead 5) {} [wire (mockAead 3) 0 [1, 2]] [wire (mockAead 3) 1 [7]]
     (ok.1.closed, ok.1.cnt, ok.2.1, ok.2.2) = (false, 1, [1, 2], [7]) ∧
     (stale.1.closed, stale.2.1, stale.2.2) = (true, [1, 2], []) := by
+  decide +kernel
+
+/-- pool, concrete: two connections (mock keys 3 and 5), reads interleaved mid-frame -/
+example :
+    let w3 := wire (mockAead 3) 0 [1, 2]
+    let w5 := wire (mockAead 5) 0 [9]
+    let r := Pool.run (fun i => mockAead (if i = 0 then 3 else 5)) (fun _ => {})
+      [(0, w3.take 7), (1, w5.take 3), (0, w3.drop 7), (1, w5.drop 3)]
+    (r.2, (r.1 0).cnt, (r.1 1).cnt) = ([(0, []), (1, []), (0, [1, 2]), (1, [9])], 1, 1) := by
   decide +kernel
 
 end Hap.Frame
